@@ -21,6 +21,7 @@ structure Env where
   importDefault : String := Gen.Const.schemaUnknown   -- `Schema()` default argument of `Table.__init__`, fixed at import
   prov : ProvView := ProvView.none
   ro : Render.Opts := {}
+  revStar : Nat := 0                   -- iterate `set(alias_mapping.values())` in the opposite order (C11)
 
 /-- `Schema()` (models.py:16‑25) -/
 def defaultSchema (env : Env) : String :=
@@ -224,7 +225,7 @@ def finishBranches (env : Env) (g : LGraph) (branches : List (List Item × List 
     (fun (acc : List DObj × List ColSpec × List (Nat × Nat)) (b : (List Item × List FromExpr) × Nat) =>
       let bs := if b.2 != 0 then acc.2.2 ++ [(acc.2.1.length, acc.1.length)] else acc.2.2
       (acc.1 ++ tablesOfFrom env g b.1.2, acc.2.1 ++ b.1.1.map (colSpecOf env), bs)) ([], [], [])
-  match endOfQueryCleanup env.importDefault g acc.1 acc.2.1 acc.2.2 with
+  match endOfQueryCleanup env.importDefault g acc.1 acc.2.1 acc.2.2 env.revStar with
   | .ok g' => .ok (expandWildcard env.prov g')
   | .error e => .error e
 
